@@ -74,12 +74,20 @@ class Check:
         """take over the obligations another property's rule function produced
         (shared rules are reported under every property they break)"""
         n = 0
+        taken: List[str] = []
         for o in other.obs:
             if pred is not None and not pred(o):
                 continue
             self.obs.append(Obligation(rule or o.rule, o.construct, o.ok, o.loc, o.message, o.facts, o.undecided))
+            taken.append(o.construct)
             n += 1
-        self.functions |= other.functions
+        if pred is None:
+            self.functions |= other.functions
+        else:
+            # only the functions the adopted obligations are about (constructs start with them)
+            for q in other.functions:
+                if any(c == q or (c.startswith(q) and c[len(q)] in ":(.@[") for c in taken):
+                    self.functions.add(q)
         self.call_sites += other.call_sites
         for k, v in other.rule_text.items():
             self.rule_text.setdefault(k, v)
@@ -87,6 +95,32 @@ class Check:
 
     def sub(self) -> "Check":
         return Check(self.prop, self.repo, self.tier)
+
+    def adopt_property(self, other_prop: str, rule: str, pred=None) -> int:
+        """this property cannot hold where ``other_prop`` is violated: run that property's rules
+        on the same tree and take over their obligations (reported under ``rule``).  An
+        obligation this check already has (same construct, same outcome) is not repeated."""
+        import importlib
+        cache = self.repo.__dict__.setdefault("_prop_obs", {})
+        if other_prop not in cache:
+            sub = Check(other_prop, self.repo, self.tier)
+            importlib.import_module("gtirb_static.rules.%s" % other_prop.lower()).run(sub)
+            cache[other_prop] = sub
+        sub = cache[other_prop]
+        have = {(o.construct, o.ok) for o in self.obs}
+        n = 0
+        for o in sub.obs:
+            if pred is not None and not pred(o):
+                continue
+            if (o.construct, o.ok) in have:
+                continue
+            have.add((o.construct, o.ok))
+            self.obs.append(Obligation(rule, o.construct, o.ok, o.loc,
+                                       "%s [%s %s]" % (o.message, other_prop, o.rule), o.facts, o.undecided))
+            n += 1
+        self.functions |= sub.functions
+        self.call_sites += sub.call_sites
+        return n
 
     def saw(self, fi: Any) -> None:
         self.functions.add(fi.qualname if hasattr(fi, "qualname") else str(fi))
